@@ -11,9 +11,9 @@ import (
 
 func init() {
 	register(&propInfo{
-		ID:     "C19",
-		Run:    runC19,
-		MinObl: 60,
+		ID:          "C19",
+		Run:         runC19,
+		MinObl:      60,
 		Explanation: "Decided (race-freedom and deadlock-freedom preconditions, not interleaving semantics): R1 lock discipline of storage.MemoryStore — on every path of every method (calls to other methods of the receiver traversed in place) each write to a guarded map happens with that map's mutex write-locked and each read with it read- or write-locked, for every map that some method writes; every map field is in the guard table; R2 every Lock/RLock is released on all exits, no method acquires a mutex it already holds, and the held→acquired relation over all methods is acyclic; R3 a method that writes several guarded maps holds all their write locks at each of those writes, and no mutex is released between a read of a map and a later write of the same map on one path (check-then-insert / read-modify-write sections); R4 no method of a provider-shared type (Fosite, Config, handler and strategy structs — found by the interfaces they implement) stores into a field or map of its receiver, and no function outside package init stores to a package-level variable, unless a mutex of that object is held; R5 objects owned by the store (results of storage lookups and what their getters return, unless passed through Clone/Sanitize) are not mutated and not installed into the request by handler code. NOT decided: linearizability of request-level operations, liveness, absence of panics, uniqueness of generated tokens, races inside collaborators (ristretto cache, go-jose).",
 	})
 }
